@@ -352,6 +352,69 @@ def rule_T5(text):
 RULES = {'T1': rule_T1, 'T2': rule_T2, 'T3': rule_T3, 'T5': rule_T5}
 
 
+def rule_T6(body, callees, arg):
+    """ghost (erased) argument threaded through calls: `.callee(args)` / `::callee(args)` -> `callee(args, ARG)`"""
+    fired = 0
+    pos = 0
+    rx = re.compile(r'(?:\.|::)\s*(' + '|'.join(re.escape(c) for c in callees) + r')\s*\(')
+    while True:
+        mask = code_mask(body)
+        m = rx.search(mask, pos)
+        if not m:
+            break
+        op = m.end() - 1
+        cp = match_brace(mask, op, '(', ')')
+        inner = mask[op + 1:cp].strip()
+        ins = (', ' if inner else '') + arg
+        body = body[:cp] + ins + body[cp:]
+        pos = cp + len(ins)
+        fired += 1
+    return body, fired
+
+
+def rule_T7(body, k, header):
+    """spec annotation of the k-th closure literal `|params| EXPR`: the header is replaced by `header`
+    (same parameter names, now typed, plus `-> (r: T) ensures ..`) and a non-block body is wrapped in braces"""
+    mask = code_mask(body)
+    found = []
+    for m in re.finditer(r'\|([^|()]*)\|', mask):
+        # a closure header is preceded by `=`, `(`, `,` or `move`
+        pre = mask[:m.start()].rstrip()
+        if pre.endswith(('=', '(', ',', 'move')) and not pre.endswith(('==', '<=', '>=', '!=')):
+            found.append(m)
+    if len(found) < k:
+        raise ExtractError('closure #%d not found (function has %d closures)' % (k, len(found)))
+    m = found[k - 1]
+    orig_params = [x.strip().split(':')[0].strip() for x in m.group(1).split(',') if x.strip()]
+    hm = re.match(r'\s*\|([^|]*)\|', header)
+    new_params = [x.strip().split(':')[0].strip() for x in hm.group(1).split(',') if x.strip()] if hm else None
+    if new_params != orig_params:
+        raise ExtractError('closure #%d: parameter names %s do not match the annotation %s' % (k, orig_params, new_params))
+    # body of the closure: up to the terminating `;` / `,` / `)` at depth 0
+    j = m.end()
+    while mask[j] in ' \t\n':
+        j += 1
+    if mask[j] == '{':
+        end = match_brace(mask, j) + 1
+        new_body = body[j:end]
+    else:
+        d, e = 0, j
+        while e < len(mask):
+            ch = mask[e]
+            if ch in '([{':
+                d += 1
+            elif ch in ')]}':
+                if d == 0:
+                    break
+                d -= 1
+            elif ch in ';,' and d == 0:
+                break
+            e += 1
+        end = e
+        new_body = '{ ' + body[j:end].strip() + ' }'
+    return body[:m.start()] + header.strip() + ' ' + new_body + body[end:], 1
+
+
 # --------------------------------------------------------------------------------------------
 def name_return(sig: str, ret_name: str):
     """`-> T` (before where / end) becomes `-> (ret_name: T)`; returns (sig, where_clause)"""
@@ -408,6 +471,23 @@ def extract_fn(repo: str, spec: dict):
     for r in spec.get('rules', []):
         body, n = RULES[r](body)
         fired[r] = n
+    for (callees, arg) in spec.get('ghost_args', []):
+        body, n = rule_T6(body, callees, arg)
+        if n == 0:
+            raise ExtractError('%s::%s: T6: none of the calls %s found' % (spec['file'], spec['fn'], callees))
+        fired['T6:' + ','.join(callees)] = n
+    for k in sorted(spec.get('closures', {}), reverse=True):
+        body, n = rule_T7(body, int(k), spec['closures'][k])
+        fired['T7:closure%d' % int(k)] = n
+    for gp in spec.get('ghost_params', []):
+        mask = code_mask(sig)
+        fm = re.search(r'\bfn\s+\w+', mask)
+        # generics may precede the parameter list
+        op = mask.index('(', fm.end())
+        cp = match_brace(mask, op, '(', ')')
+        inner = mask[op + 1:cp].strip()
+        sig = sig[:cp].rstrip().rstrip(',') + ((', ' if inner else '') + gp) + sig[cp:]
+        fired['T6:ghostparam'] = fired.get('T6:ghostparam', 0) + 1
     for (pat, rep) in spec.get('sig_sub', []):
         sig, n = re.subn(pat, rep, sig)
         if n == 0:
@@ -424,6 +504,8 @@ def extract_fn(repo: str, spec: dict):
         body = body[:ob] + '\n' + spec['loops'][k].rstrip() + '\n        ' + body[ob:]
     if spec.get('proof'):
         body = '{\n        proof {\n' + spec['proof'].rstrip() + '\n        }' + body[1:]
+    if spec.get('entry'):
+        body = '{\n' + spec['entry'].rstrip() + '\n' + body[1:]
     out = ''
     if spec.get('attrs'):
         out += spec['attrs'].rstrip() + '\n'
